@@ -9,12 +9,16 @@ open H4.Gen.Hdf
 def ResOK (w : World) (op : Op) (r : World × Res) : Prop :=
   WFW r.1 ∧ ∃ v', specStep (abs w) op r.2 = some v' ∧ v'.Eqv (abs r.1)
 
-theorem coh_plainWriteF {f : File} (h : Coh f) (s o p : Nat) (bs : Bytes) (grow : Bool) (hs : s < f.mem.length) :
-    Coh (plainWriteF f s o p bs grow) := by
+theorem coh_plainWriteF {f : File} (h : Coh f) (s o l p : Nat) (bs : Bytes) (grow : Bool) (hs : s < f.mem.length) :
+    Coh (plainWriteF f s o l p bs grow) := by
   unfold plainWriteF
   cases grow with
-  | false => exact coh_endOff (coh_pwrite h _ _) _
-  | true => exact coh_endOff (coh_pwrite (coh_ddSetExt h s _ hs) _ _) _
+  | false => simp only [Bool.false_eq_true, false_and, if_false]; exact coh_endOff (coh_pwrite h _ _) _
+  | true =>
+    simp only [if_true, true_and]
+    by_cases c : p > l
+    · rw [if_pos c]; exact coh_endOff (coh_pwrite (coh_ddSetExt (coh_pwrite h _ _) s _ hs) _ _) _
+    · rw [if_neg c]; exact coh_endOff (coh_pwrite (coh_ddSetExt h s _ hs) _ _) _
 
 /-- a user key names the slot it is registered in -/
 theorem keyOf_of_hasKey {f : File} {j : Nat} {k : Nat × Nat} (hu : UserKey k) (hk : f.hasKey j k.1 k.2) : f.keyOf j = k := by
@@ -99,24 +103,36 @@ theorem hwritePlain_ok (w : World) (hw : WFW w) (h : Nat) (bs : Bytes) (hbs : bs
               intro h2; apply hfail; right
               exact ⟨by simpa using hap, h2⟩
             omega
-      have hfeq : ({ ((if a.appendable = true ∧ (bs.length : Int) + a.posn > l then (w.file a.file).ddSetExt a.slot ((o : Int).toNat, a.posn + bs.length)
-            else w.file a.file).pwrite ((o : Int).toNat + a.posn) bs) with
-            endOff := max ((if a.appendable = true ∧ (bs.length : Int) + a.posn > l then (w.file a.file).ddSetExt a.slot ((o : Int).toNat, a.posn + bs.length)
-              else w.file a.file).pwrite ((o : Int).toNat + a.posn) bs).endOff ((o : Int).toNat + a.posn + bs.length) } : File) =
-          plainWriteF (w.file a.file) a.slot o a.posn bs (decide (a.appendable = true ∧ (bs.length : Int) + a.posn > l)) := by
+      have hfeq : ({ ((if a.appendable = true ∧ (bs.length : Int) + a.posn > l then
+              (if a.appendable = true ∧ (bs.length : Int) + a.posn > l ∧ (a.posn : Int) > l then
+                (w.file a.file).pwrite ((o : Int).toNat + (l : Int).toNat) (zeros (a.posn - (l : Int).toNat)) else w.file a.file).ddSetExt a.slot ((o : Int).toNat, a.posn + bs.length)
+            else (if a.appendable = true ∧ (bs.length : Int) + a.posn > l ∧ (a.posn : Int) > l then
+                (w.file a.file).pwrite ((o : Int).toNat + (l : Int).toNat) (zeros (a.posn - (l : Int).toNat)) else w.file a.file)).pwrite ((o : Int).toNat + a.posn) bs) with
+            endOff := max ((if a.appendable = true ∧ (bs.length : Int) + a.posn > l then
+              (if a.appendable = true ∧ (bs.length : Int) + a.posn > l ∧ (a.posn : Int) > l then
+                (w.file a.file).pwrite ((o : Int).toNat + (l : Int).toNat) (zeros (a.posn - (l : Int).toNat)) else w.file a.file).ddSetExt a.slot ((o : Int).toNat, a.posn + bs.length)
+              else (if a.appendable = true ∧ (bs.length : Int) + a.posn > l ∧ (a.posn : Int) > l then
+                (w.file a.file).pwrite ((o : Int).toNat + (l : Int).toNat) (zeros (a.posn - (l : Int).toNat)) else w.file a.file)).pwrite ((o : Int).toNat + a.posn) bs).endOff ((o : Int).toNat + a.posn + bs.length) } : File) =
+          plainWriteF (w.file a.file) a.slot o l a.posn bs (decide (a.appendable = true ∧ (bs.length : Int) + a.posn > l)) := by
         simp only [plainWriteF, Int.toNat_natCast]
         by_cases hg : a.appendable = true ∧ (bs.length : Int) + a.posn > l
-        · simp [hg]
-        · simp [hg]
+        · by_cases hp : a.posn > l
+          · have hp' : (a.posn : Int) > l := by omega
+            simp [hg, hp, hp']
+          · have hp' : ¬ ((a.posn : Int) > l) := by omega
+            simp [hg, hp, hp']
+        · have hg' : ¬ (a.appendable = true ∧ (bs.length : Int) + a.posn > l ∧ (a.posn : Int) > l) := fun c => hg ⟨c.1, c.2.1⟩
+          rw [if_neg hg, if_neg hg']
+          simp [hg]
       rw [hfeq]
       have hPW := plainWrite_spec (w.file a.file) (hw.files a.file) a.slot o l a.posn bs
         (decide (a.appendable = true ∧ (bs.length : Int) + a.posn > l)) hh.live hsp' (keyOf_user_ne_linked hh.user) hx
         (by rcases hgrow_case with ⟨h1, h2⟩ | ⟨h1, h2, h3⟩
             · left; exact ⟨by simpa using h1, h2⟩
             · right; exact ⟨by simpa using h1, h2, h3⟩)
-      have hC : Coh (plainWriteF (w.file a.file) a.slot o a.posn bs (decide (a.appendable = true ∧ (bs.length : Int) + a.posn > l))) :=
-        coh_plainWriteF (hw.coh a.file) _ _ _ _ _ (live_lt _ _ hh.live)
-      generalize plainWriteF (w.file a.file) a.slot o a.posn bs (decide (a.appendable = true ∧ (bs.length : Int) + a.posn > l)) = f' at hPW hC
+      have hC : Coh (plainWriteF (w.file a.file) a.slot o l a.posn bs (decide (a.appendable = true ∧ (bs.length : Int) + a.posn > l))) :=
+        coh_plainWriteF (hw.coh a.file) _ _ _ _ _ _ (live_lt _ _ hh.live)
+      generalize plainWriteF (w.file a.file) a.slot o l a.posn bs (decide (a.appendable = true ∧ (bs.length : Int) + a.posn > l)) = f' at hPW hC
       have hpres : f'.present = (w.file a.file).present := hPW.present
       have hshape : ∀ s', (w.file a.file).live s' → (f'.dd s').tag = ((w.file a.file).dd s').tag ∧
           (f'.dd s').ref = ((w.file a.file).dd s').ref ∧ ((f'.dd s').ext = none ↔ ((w.file a.file).dd s').ext = none) := by
